@@ -17,3 +17,4 @@ pub mod c23;
 pub mod c25;
 pub mod c27;
 pub mod c32;
+pub mod c34;
